@@ -77,8 +77,14 @@ type MdnsManager struct {
 
 	providerSelection MdnsProviderSelection
 
+	// reports are numbered in the order their entries were copied, so an
+	// older list of entries is never reported after a newer one
+	reportCounter   uint64
+	reportDelivered uint64
+
 	mux,
-	muxAnnounced sync.Mutex
+	muxAnnounced,
+	muxReport sync.Mutex
 }
 
 func shortenString(s string, maxLen int) string {
@@ -382,6 +388,13 @@ func (m *MdnsManager) mdnsEntries() map[string]*api.MdnsEntry {
 }
 
 func (m *MdnsManager) copyMdnsEntries() map[string]*api.MdnsEntry {
+	entries, _ := m.copyMdnsEntriesForReport()
+
+	return entries
+}
+
+// returns a copy of the entries together with the number of this copy
+func (m *MdnsManager) copyMdnsEntriesForReport() (map[string]*api.MdnsEntry, uint64) {
 	m.mux.Lock()
 	defer m.mux.Unlock()
 
@@ -392,7 +405,27 @@ func (m *MdnsManager) copyMdnsEntries() map[string]*api.MdnsEntry {
 		mdnsEntries[k] = newEntry
 	}
 
-	return mdnsEntries
+	m.reportCounter++
+
+	return mdnsEntries, m.reportCounter
+}
+
+// report the current entries asynchronously, one report at a time and
+// never an older list of entries after a newer one was reported
+func (m *MdnsManager) reportMdnsEntries(newEntries bool) {
+	entries, counter := m.copyMdnsEntriesForReport()
+
+	go func() {
+		m.muxReport.Lock()
+		defer m.muxReport.Unlock()
+
+		if counter < m.reportDelivered {
+			return
+		}
+		m.reportDelivered = counter
+
+		m.report.ReportMdnsEntries(entries, newEntries)
+	}()
 }
 
 func (m *MdnsManager) mdnsEntry(ski string) (*api.MdnsEntry, bool) {
@@ -566,8 +599,7 @@ func (m *MdnsManager) processMdnsEntry(elements map[string]string, name, host st
 		return
 	}
 
-	entries := m.copyMdnsEntries()
-	go m.report.ReportMdnsEntries(entries, true)
+	m.reportMdnsEntries(true)
 }
 
 func (m *MdnsManager) RequestMdnsEntries() {
@@ -575,6 +607,5 @@ func (m *MdnsManager) RequestMdnsEntries() {
 		return
 	}
 
-	entries := m.copyMdnsEntries()
-	go m.report.ReportMdnsEntries(entries, false)
+	m.reportMdnsEntries(false)
 }
